@@ -857,7 +857,15 @@ impl HashColumn {
 				let sub_index = if in_current { Some(sub_index) } else { None };
 				// Nothing is inserted when the index needs to grow first: hand the address back.
 				match tables.index.write_insert_plan(key, value_address, sub_index, log)? {
-					PlanOutcome::NeedReindex => Ok((PlanOutcome::NeedReindex, Some(value_address))),
+					PlanOutcome::NeedReindex => {
+						// Nothing was written (the address does not fit this index). The entry found
+						// in the current index still names the slot that was just freed: it goes, or
+						// the table - about to be queued for reindexing - carries it over.
+						if let Some(sub_index) = sub_index {
+							index.write_remove_plan(key, sub_index, log)?;
+						}
+						Ok((PlanOutcome::NeedReindex, Some(value_address)))
+					},
 					outcome => Ok((outcome, None)),
 				}
 			},
